@@ -307,3 +307,13 @@ func (w *World) vanishedInt(fn *ssa.Function, name string) bool {
 	}
 	return true
 }
+
+// recordedInt: name was an int-typed declared variable of fn when the contracts were recorded.
+func (w *World) recordedInt(fn *ssa.Function, name string) bool {
+	for _, d := range w.recLocals[funcKey(fn)] {
+		if d.Name == name && d.Type == "int" {
+			return true
+		}
+	}
+	return false
+}
